@@ -57,16 +57,25 @@ class World:
         self.idx = {x: j for j, x in enumerate(self.U)}
         import dd.bdd as _bdd
         self._bddmod = _bdd
+        init = list(cfg.get('order') or self.U[:cfg.get('init_vars', 2)])
+        ctor = cfg.get('ctor')       # None | 'levels' | 'copy_vars'
+        levels_arg = None
+        if ctor == 'levels' and init:
+            # BDD({name: level}) with the names inserted in another order
+            items = [(x, l) for l, x in enumerate(init)]
+            random.Random(cfg.get('ctor_seed', 0)).shuffle(items)
+            levels_arg = dict(items)
         if self.kind == 'autoref':
             import dd.autoref as _ar
             self._ar = _ar
-            self.A = _ar.BDD()
+            self.A = _ar.BDD(levels_arg) if levels_arg else _ar.BDD()
             self.b = self.A._bdd
             # the wrapped manager's shutdown check is exercised
             # explicitly by `shutdown()`; silence the implicit one
             self.api = self.A
         else:
-            self.b = _mk_bdd_class()()
+            self.b = _mk_bdd_class()(levels_arg) if levels_arg \
+                else _mk_bdd_class()()
             self.A = None
             self.api = self.b
         self.order = []
@@ -77,9 +86,27 @@ class World:
         self.reordering = False
         self._was_reordering = False
         self.sem = cfg.get('semantic', 1)
-        for x in (cfg.get('order') or self.U[:cfg.get('init_vars', 2)]):
-            self.api.declare(x)
-            self.order.append(x)
+        if levels_arg:
+            self.order = list(init)
+        elif ctor == 'copy_vars' and init:
+            # variables copied from a manager that was reordered after
+            # declaring (its dict order differs from its level order)
+            import dd._copy as _copy
+            src = _mk_bdd_class()()
+            src.declare(*sorted(init))
+            _bdd.reorder(src, {x: l for l, x in enumerate(init)})
+            if self.kind == 'autoref':
+                srcA = self._ar.BDD()
+                srcA.declare(*sorted(init))
+                srcA.reorder({x: l for l, x in enumerate(init)})
+                self._ar.copy_vars(srcA, self.A)
+            else:
+                _copy.copy_vars(src, self.b)
+            self.order = list(init)
+        else:
+            for x in init:
+                self.api.declare(x)
+                self.order.append(x)
         self._starts = cfg.get('reorder_starts')
         if cfg.get('reordering'):
             self._set_reordering(True)
@@ -410,7 +437,7 @@ class World:
             route = 0 if route % 4 == 2 else route
         t = self.project(t)
         sub = route >> 2
-        if sub % 3 == 0 and len(self.order) >= 2:
+        if sub % 3 == 1 and len(self.order) >= 2:
             # a function of a drawn subset of the declared variables, so
             # that some declared variables stay unused
             keep_ = [x for l, x in enumerate(self.order)
@@ -766,6 +793,8 @@ class World:
             return
         self.op_compare_all(0)
         self.recompute()
+        for i_ in range(min(len(self.held), 4)):
+            self.op_to_expr(i_ + 2)
         tabs = [e.t for e in self.held[:3] + self.held[-3:]][:k]
         while self.held:
             self.op_drop(0)
@@ -794,6 +823,8 @@ class World:
                               4 * rnd.randrange(1, 4000), 1)
         self.op_compare_all(0)
         self.recompute()
+        for i_ in range(min(len(self.held), 4)):
+            self.op_to_expr(i_ + 2)
         self.label('churn')
 
     def _raw_build(self, t):
@@ -843,6 +874,29 @@ class World:
                 m._ref[k_] = 0
             m._ref[1] = 1
         self.label('fork')
+
+    def op_file_roundtrip(self, i, fmt):
+        """Dump held references and load them back (a normal operation
+        that must succeed whatever failed before)."""
+        import os
+        if not self.held:
+            return
+        es = self.held[:2] + self.held[-1:]
+        fmt %= 2
+        if fmt == 1 and self.kind != 'autoref':
+            fmt = 0
+        p = os.path.join(os.getcwd(), 'rt_op' + ['.p', '.json'][fmt])
+        roots = [e.ref for e in es]
+        with self.quiet():
+            self.api.dump(p, roots=roots)
+            try:
+                back = self.api.load(p)
+            finally:
+                os.remove(p)
+        require(len(back) == len(es), 'file_roundtrip.length')
+        for r, e in zip(back, es):
+            self.hold(r, e.t, 1)
+        self.label('file_roundtrip')
 
     REPEATABLE = {'apply', 'not', 'ite', 'funcop', 'quantify', 'let_const',
                   'let_rename', 'let_compose', 'cube', 'var', 'add_expr',
@@ -1438,9 +1492,6 @@ class World:
             self.api.load(p)
         finally:
             os.remove(p)
-            if os.path.isdir('__shelve__'):
-                import shutil
-                shutil.rmtree('__shelve__')
 
     def _bad_image_precondition(self, a, b):
         n = len(self.order)
